@@ -10,6 +10,7 @@ package gltf
 // method appends exactly one accessor and one buffer view: the view starts where the previous data ended, its
 // length is what was written, the accessor points at it and count * components * componentSize is its length.
 // bitlib's contracts live in /verif/contracts/ext/bitlib.contracts and are verified against its source.
+// callarg(F, k) is the argument of the k-th call of F in a straight-line function; ncalls(F) their number.
 
 //@ func AccessorComponentType.Size pure
 //@   props C06
@@ -51,6 +52,7 @@ package gltf
 
 //@ func Writer.WriteVector2AsFloat32
 //@   props C06
+//@   ensures components_in_order: ncalls(Float32) == 2 && callarg(Float32, 0) == f32(v.X()) && callarg(Float32, 1) == f32(v.Y())
 //@   modifies w.bitW, w.bitW.buf, ghost written
 //@   requires w.bitW != nil && len(w.bitW.buf) >= 8
 //@   ensures nbytes_or_sticky_error8: w.bitW.err == nil ==> old(w.bitW.err) == nil && written(w.bitW.out) == old(written(w.bitW.out)) + 8
@@ -58,6 +60,7 @@ package gltf
 
 //@ func Writer.WriteVector2AsByte
 //@   props C06
+//@   ensures components_in_order: ncalls(Byte) == 2 && callarg(Byte, 0) == uint8(v.X()) && callarg(Byte, 1) == uint8(v.Y())
 //@   modifies w.bitW, w.bitW.buf, ghost written
 //@   requires w.bitW != nil && len(w.bitW.buf) >= 8
 //@   ensures nbytes_or_sticky_error2: w.bitW.err == nil ==> old(w.bitW.err) == nil && written(w.bitW.out) == old(written(w.bitW.out)) + 2
@@ -65,6 +68,7 @@ package gltf
 
 //@ func Writer.WriteVector3AsFloat32
 //@   props C06
+//@   ensures components_in_order: ncalls(Float32) == 3 && callarg(Float32, 0) == f32(v.X()) && callarg(Float32, 1) == f32(v.Y()) && callarg(Float32, 2) == f32(v.Z())
 //@   modifies w.bitW, w.bitW.buf, ghost written
 //@   requires w.bitW != nil && len(w.bitW.buf) >= 8
 //@   ensures nbytes_or_sticky_error12: w.bitW.err == nil ==> old(w.bitW.err) == nil && written(w.bitW.out) == old(written(w.bitW.out)) + 12
@@ -72,6 +76,7 @@ package gltf
 
 //@ func Writer.WriteVector3AsByte
 //@   props C06
+//@   ensures components_in_order: ncalls(Byte) == 3 && callarg(Byte, 0) == uint8(v.X()) && callarg(Byte, 1) == uint8(v.Y()) && callarg(Byte, 2) == uint8(v.Z())
 //@   modifies w.bitW, w.bitW.buf, ghost written
 //@   requires w.bitW != nil && len(w.bitW.buf) >= 8
 //@   ensures nbytes_or_sticky_error3: w.bitW.err == nil ==> old(w.bitW.err) == nil && written(w.bitW.out) == old(written(w.bitW.out)) + 3
@@ -79,6 +84,7 @@ package gltf
 
 //@ func Writer.WriteVector4AsFloat32
 //@   props C06
+//@   ensures components_in_order: ncalls(Float32) == 4 && callarg(Float32, 0) == f32(v.X()) && callarg(Float32, 1) == f32(v.Y()) && callarg(Float32, 2) == f32(v.Z()) && callarg(Float32, 3) == f32(v.W())
 //@   modifies w.bitW, w.bitW.buf, ghost written
 //@   requires w.bitW != nil && len(w.bitW.buf) >= 8
 //@   ensures nbytes_or_sticky_error16: w.bitW.err == nil ==> old(w.bitW.err) == nil && written(w.bitW.out) == old(written(w.bitW.out)) + 16
@@ -86,6 +92,7 @@ package gltf
 
 //@ func Writer.WriteVector4AsByte
 //@   props C06
+//@   ensures components_in_order: ncalls(Byte) == 4 && callarg(Byte, 0) == uint8(v.X()) && callarg(Byte, 1) == uint8(v.Y()) && callarg(Byte, 2) == uint8(v.Z()) && callarg(Byte, 3) == uint8(v.W())
 //@   modifies w.bitW, w.bitW.buf, ghost written
 //@   requires w.bitW != nil && len(w.bitW.buf) >= 8
 //@   ensures nbytes_or_sticky_error4: w.bitW.err == nil ==> old(w.bitW.err) == nil && written(w.bitW.out) == old(written(w.bitW.out)) + 4
